@@ -186,7 +186,7 @@ theorem NP_ruleDate (e : Ext) (a c d : Bytes) (v : GoVal) : NP (ruleDate e a c d
 theorem NP_ruleDatetime (e : Ext) (a c d : Bytes) (v : GoVal) : NP (ruleDatetime e a c d v) := by
   unfold ruleDatetime
   rcases parseValidNameKV a with ⟨k, tv, cm⟩
-  exact NP_strRule _ _ _ _ _ _ fun _ => NP_bind _ _ (NP_timeOk _ _ _) fun _ => NP_pure _
+  exact NP_strRule _ _ _ _ _ _ fun _ => NP_timeOk _ _ _
 theorem NP_rulePrefix (a c d : Bytes) (v : GoVal) (p : Bool) : NP (rulePrefix a c d v p) := by
   unfold rulePrefix
   rcases parseValidNameKV a with ⟨k, tv, cm⟩
